@@ -117,3 +117,30 @@ def r06_4(prog, out):
                 out.undecided(key, bi.loc(a.poll_bb), "continuation too complex")
             else:
                 out.violation(key, bi.loc(a.poll_bb), "after being woken the consumer can %s instead of pulling: the message stays undelivered" % sorted(labels - {"pulls"}))
+
+
+@rule("C06", "R06.5", "a consumer's wait-then-pull loop dies with its client: it is not moved into a detached task", floor=1)
+@rule("C15", "R06.5", "a consumer's wait-then-pull loop dies with its client: it is not moved into a detached task", floor=1)
+def r06_5(prog, out):
+    """A consumer that waits on the message signal is first in line for the next `notify_one`.  While it runs inside the
+    request's own future, a client that goes away takes it out of the line (the future is dropped).  Moved into
+    `tokio::spawn` and awaited through the JoinHandle, it survives its client -- dropping a JoinHandle detaches, it does not
+    abort -- and keeps swallowing wake-ups and messages for nobody while real consumers stay parked."""
+    loops = find_consumer_loops(prog)
+    if not loops:
+        raise CheckBroken("no consumer loop found")
+    spawned = {}
+    for b in prog.facts.lib_bodies():
+        bi = prog.info(b.id)
+        for sp in bi.spawns:
+            if sp.kind == "detached" and sp.task is not None:
+                for c in prog.cone(sp.task, follow=("closure", "poll")):
+                    spawned.setdefault(c, (b.id, sp.bb))
+    for cl in loops:
+        key = "consumer:%s:not-detached" % cl.label
+        if cl.body in spawned:
+            sb, sbb = spawned[cl.body]
+            out.violation(key, prog.loc(sb, sbb), "the consumer loop runs in a detached task: when its client goes away (cancel, timeout) the loop lives on, stays "
+                          "registered on the message signal, and takes the next wake-up and messages that a real waiting consumer should get")
+        else:
+            out.holds(key, prog.loc(cl.body), "runs in the request's own future")
